@@ -264,20 +264,31 @@ class ReplayBroken(Exception):
 
 
 def confirm(binpaths, b, casefile, outdir, times=3):
+    """replays of one saved case; with times > 3 (properties whose failures depend on timing) the replays after the
+    first three run four at a time: the campaign found the failure while many processes were running, a quiet
+    machine can hide it"""
     fails = 0
     logs = []
-    for k in range(times):
-        r, lg = replay_once(binpaths.get(b['name']), b, casefile, outdir)
-        if r == 'fail':
-            fails += 1
-            logs.insert(0, lg)  # the log of a failing replay first: it is the one that gets summarised
-            if k >= 2:
-                break  # after the first three replays one reproduction is enough
-        elif r == 'error':
-            # the saved case could not be parsed / matched: the machinery is broken, never "flaky"
-            raise ReplayBroken('replay of %s is impossible: %s' % (casefile, tail(lg, 5).strip()))
+    k = 0
+    while k < times:
+        batch = 1 if k < 3 else min(4, times - k)
+        if batch == 1:
+            rs = [replay_once(binpaths.get(b['name']), b, casefile, outdir)]
         else:
-            logs.append(lg)
+            with ThreadPoolExecutor(max_workers=batch) as ex:
+                rs = list(ex.map(lambda i: replay_once(binpaths.get(b['name']), b, casefile, os.path.join(outdir, 'p%d' % i)), range(batch)))
+        k += batch
+        for r, lg in rs:
+            if r == 'fail':
+                fails += 1
+                logs.insert(0, lg)  # the log of a failing replay first: it is the one that gets summarised
+            elif r == 'error':
+                # the saved case could not be parsed / matched: the machinery is broken, never "flaky"
+                raise ReplayBroken('replay of %s is impossible: %s' % (casefile, tail(lg, 5).strip()))
+            else:
+                logs.append(lg)
+        if fails and k >= 3:
+            break  # after the first three replays one reproduction is enough
     return fails, logs
 
 
@@ -473,13 +484,20 @@ def check(pid, tier):
             write_evidence(pid, tier, seed, prop, results, extra, time.time() - t0, len(violations))
             return 2
         for cf, how in cases:
+            orig_cf = cf
             if how.startswith('crash') or how == 'hang':
                 cf = try_minimize(binpaths, b, cf, res['outdir'])
             ntries = prop.get('confirm_replays', 3)  # racy properties replay more often: one reproduction confirms
             if how.startswith('process-level'):
                 ntries = 1
+            cf0 = cf
             fails, logs = confirm(binpaths, b, cf, os.path.join(res['outdir'], 'confirm'), times=ntries)
+            if fails == 0 and cf != orig_cf:
+                # the minimised form of a timing-dependent crash may have lost what made it fail: try the case as found
+                cf = orig_cf
+                fails, logs = confirm(binpaths, b, cf, os.path.join(res['outdir'], 'confirm0'), times=ntries)
             if fails == 0:
+                cf = cf0
                 notes.append('FLAKY-UNCONFIRMED %s (%s): 0/%d replays failed' % (cf, how, ntries))
                 continue
             known = matches_known(pid, b, cf, logs[0])
